@@ -59,6 +59,8 @@ def apply_abstract(sig, m):
         sig[m['m']]['ut'] = ut
     elif k == 'RenF':
         sig[m['m']]['fields'][m['nf']] = sig[m['m']]['fields'].pop(m['of'])
+        sig[m['m']]['ut'] = [[m['nf'] if x == m['of'] else x for x in t]
+                             for t in sig[m['m']]['ut']]
     elif k == 'Meta':
         if m['prop'] == 'unique_together':
             sig[m['m']]['ut'] = [list(t) for t in m['val']]
